@@ -68,8 +68,8 @@ inductive MsgO where
   /-- `MSG_REPLY` whose value carries these objects by reference; `kept`: the peer's application still has the
   `AsyncResult` this reply completes -/
   | reply (ids : List Id) (kept : Bool)
-  /-- `MSG_EXCEPTION` -/
-  | exc
+  /-- `MSG_EXCEPTION`; `kept` as for a reply -/
+  | exc (kept : Bool)
   deriving DecidableEq, Repr
 
 /-- messages peer → owner -/
@@ -130,11 +130,11 @@ def handleP (s : St) : MsgP → Out × St
   | .del k n =>
     -- `_unbox (LOCAL_REF k)` is `_local_objects[k]`, then `_handle_del` → `decref`
     match s.tbl.decref k n with
-    | .error _ => (.keyError, { s with o2p := s.o2p ++ [.exc] })
+    | .error _ => (.keyError, { s with o2p := s.o2p ++ [.exc false] })
     | .ok t => (.ok, { s with tbl := t, o2p := s.o2p ++ [.reply [] false] })
   | .back k echo =>
     match s.tbl k with
-    | none => (.keyError, { s with o2p := s.o2p ++ [.exc] })
+    | none => (.keyError, { s with o2p := s.o2p ++ [.exc echo] })
     | some _ =>
       if echo then (.ok, { s with tbl := s.tbl.add k, o2p := s.o2p ++ [.reply [k] true] })
       else (.ok, { s with o2p := s.o2p ++ [.reply [] false] })
@@ -145,7 +145,7 @@ def handleP (s : St) : MsgP → Out × St
 def handleO (s : St) : MsgO → Out × St
   | .req ids => (.ok, { s with px := recvAll s.px ids, p2o := s.p2o ++ [.reply] })
   | .reply ids _ => (.ok, { s with px := recvAll s.px ids })
-  | .exc => (.ok, s)
+  | .exc _ => (.ok, s)
 
 def deliverP2O (s : St) : Out × St :=
   match s.p2o with
@@ -203,7 +203,7 @@ def deliverNested (resolveFirst : Bool) (mid : List Op) (s : St) : Out × St :=
   | .back k echo :: rest =>
     if resolveFirst then
       match s.tbl k with
-      | none => (.keyError, { s with p2o := rest, o2p := s.o2p ++ [.exc] })
+      | none => (.keyError, { s with p2o := rest, o2p := s.o2p ++ [.exc echo] })
       | some _ =>
         -- the package now holds the object itself; then the nested serve; then the handler runs
         if (run { s with p2o := rest } mid).closed then (.closed, run { s with p2o := rest } mid)
@@ -232,7 +232,7 @@ def cnt : Option Nat → Nat
 def MsgO.refs (k : Id) : MsgO → Nat
   | .req ids => ids.count k
   | .reply ids _ => ids.count k
-  | .exc => 0
+  | .exc _ => 0
 
 /-- references to `k` in flight to the peer -/
 def refsO (k : Id) : List MsgO → Nat
@@ -279,8 +279,10 @@ structure App where
   held : List Id
   /-- ready, uncollected results: the ids their values reference -/
   results : List (List Id)
+  /-- the peer's outstanding requests whose result it wants (`AsyncResult`s), oldest first: has it expired? -/
+  waiters : List Bool
 
-def App.init : App := { s := St.init, held := [], results := [] }
+def App.init : App := { s := St.init, held := [], results := [], waiters := [] }
 
 inductive AOp where
   | send (ks : List Id)
@@ -290,6 +292,8 @@ inductive AOp where
   | drop (k : Id)
   /-- the application takes the value of the oldest ready result and keeps its proxies -/
   | collect
+  /-- the `j`-th outstanding `AsyncResult` expires before its reply is delivered (`set_expiry`, `timed`, a timeout) -/
+  | expire (j : Nat)
   | deliverO2P
   | deliverP2O
   | close
@@ -299,45 +303,79 @@ inductive AOut where
   | base (o : Out)
   /-- the application does not hold that proxy -/
   | notHeld
-  /-- a reply carrying references nobody keeps: outside what the application layer models -/
+  /-- outside what the application layer models -/
   | notModelled
   deriving DecidableEq, Repr
 
 def holdAll (held : List Id) (ks : List Id) : List Id := ks.foldl (fun h k => if h.contains k then h else h ++ [k]) held
 
 /-- run one operation of the machine below and set the application's own bookkeeping -/
-def lift (a : App) (op : Op) (held : List Id) (results : List (List Id)) : AOut × App :=
-  (.base (step a.s op).1, { s := (step a.s op).2, held := held, results := results })
+def lift (a : App) (op : Op) (held : List Id) (results : List (List Id)) (waiters : List Bool) : AOut × App :=
+  (.base (step a.s op).1, { s := (step a.s op).2, held := held, results := results, waiters := waiters })
+
+/-- mark the `j`-th outstanding waiter expired (none: no such waiter, or expired already) -/
+def expireAt : List Bool → Nat → Option (List Bool)
+  | [], _ => none
+  | w :: ws, 0 => if w then none else some (true :: ws)
+  | w :: ws, j + 1 => (expireAt ws j).map (w :: ·)
+
+/-- the proxies a value takes with it when it is thrown away: those nobody else holds; CPython releases the items of a
+tuple from the last to the first, so a proxy goes when the reference at its FIRST occurrence goes -/
+def dying (ids held : List Id) (results : List (List Id)) : List Id :=
+  (holdAll [] ids).reverse.filter (fun k => !held.contains k && !results.any (·.contains k))
+
+/-- a reply arrives for a waiter that has expired: `_dispatch` unboxes it all the same (the references are counted,
+proxies are created), `AsyncResult.__call__` drops the value, and the proxies nobody else holds are finalized at once -/
+def discard (a : App) (ids : List Id) (waiters : List Bool) : AOut × App :=
+  (.base (step a.s .deliverO2P).1,
+   { s := run (step a.s .deliverO2P).2 ((dying ids a.held a.results).map .finalize),
+     held := a.held, results := a.results, waiters := waiters })
 
 def appStep (a : App) : AOp → AOut × App
-  | .send ks => lift a (.send ks) a.held a.results
-  | .fetch ks => lift a (.fetch ks) a.held a.results
+  | .send ks => lift a (.send ks) a.held a.results a.waiters
+  | .fetch ks =>
+    if a.s.closed then (.base .closed, a)
+    else lift a (.fetch ks) a.held a.results (a.waiters ++ [false])
   | .back k echo =>
     if a.s.closed then (.base .closed, a)
-    else if a.held.contains k then lift a (.back k echo) a.held a.results
+    else if a.held.contains k then lift a (.back k echo) a.held a.results (if echo then a.waiters ++ [false] else a.waiters)
     else (.notHeld, a)
   | .drop k =>
     if a.s.closed then (.base .closed, a)
     else if a.held.contains k then
       if a.results.any (·.contains k) then (.base .ok, { a with held := a.held.erase k })
-      else lift a (.finalize k) (a.held.erase k) a.results
+      else lift a (.finalize k) (a.held.erase k) a.results a.waiters
     else (.notHeld, a)
   | .collect =>
     if a.s.closed then (.base .closed, a) else
     match a.results with
     | [] => (.base .empty, a)
     | r :: rest => (.base .ok, { a with held := holdAll a.held r, results := rest })
+  | .expire j =>
+    if a.s.closed then (.base .closed, a) else
+    match expireAt a.waiters j with
+    | none => (.base .disabled, a)
+    | some ws => (.base .ok, { a with waiters := ws })
   | .deliverO2P =>
     if a.s.closed then (.base .closed, a) else
     match a.s.o2p with
     | [] => (.base .empty, a)
-    | .req ids :: _ => lift a .deliverO2P (holdAll a.held ids) a.results
-    | .reply ids true :: _ => lift a .deliverO2P a.held (a.results ++ [ids])
-    | .reply [] false :: _ => lift a .deliverO2P a.held a.results
+    | .req ids :: _ => lift a .deliverO2P (holdAll a.held ids) a.results a.waiters
+    | .reply ids true :: _ =>
+      match a.waiters with
+      | true :: ws => discard a ids ws
+      | false :: ws => lift a .deliverO2P a.held (a.results ++ [ids]) ws
+      | [] => (.notModelled, a)
+    | .reply [] false :: _ => lift a .deliverO2P a.held a.results a.waiters
     | .reply (_ :: _) false :: _ => (.notModelled, a)
-    | .exc :: _ => lift a .deliverO2P a.held a.results
-  | .deliverP2O => lift a .deliverP2O a.held a.results
-  | .close => lift a .close [] []
+    | .exc true :: _ =>
+      match a.waiters with
+      | true :: ws => lift a .deliverO2P a.held a.results ws
+      | false :: ws => lift a .deliverO2P a.held (a.results ++ [[]]) ws
+      | [] => (.notModelled, a)
+    | .exc false :: _ => lift a .deliverO2P a.held a.results a.waiters
+  | .deliverP2O => lift a .deliverP2O a.held a.results a.waiters
+  | .close => lift a .close [] [] []
 
 def appRun (a : App) : List AOp → App
   | [] => a
